@@ -1,0 +1,23 @@
+# Verification hooks (off unless GTIRB_REWRITING_VERIF=1).
+#
+# These hooks let an external verification harness observe the state of a
+# rewrite at its linearization points. With the guard off, ``ENABLED`` is
+# False and every hook site is a dead ``if`` branch.
+import os
+from typing import Any, Callable, Optional
+
+ENABLED = os.environ.get("GTIRB_REWRITING_VERIF") == "1"
+
+_sink: Optional[Callable[[str, dict], Any]] = None
+
+
+def install(sink: Optional[Callable[[str, dict], Any]]) -> None:
+    """Installs (or removes, with None) the callback receiving events."""
+    global _sink
+    _sink = sink
+
+
+def emit(event: str, **fields: Any) -> None:
+    """Reports an event to the installed sink, if any."""
+    if _sink is not None:
+        _sink(event, fields)
